@@ -159,6 +159,8 @@ def _brief(cfg):
 
 
 def run_case(case, ctx):
+    if case.get('kind') == 'light':
+        return run_registry_light(case, ctx)
     from pyg_base import Calendar, calendar
     from pyg_base import _drange
     _COUNTER[0] += 1
@@ -207,6 +209,49 @@ def run_case(case, ctx):
                 ctx.mark_nontrivial(case)
         ctx.maxstat('max_steps_in_add_adjust', sb.count)
     for key in reg:
+        _drange.calendars.pop(key, None)
+
+
+def run_registry_light(case, ctx):
+    """registrations that give only holidays (and maybe a weekend): default 1900-2300 range, loop path only (no index is built)"""
+    from pyg_base import calendar
+    from pyg_base import _drange
+    _COUNTER[0] += 1
+    key = 'verif-light-%d' % _COUNTER[0]
+    base = datetime.datetime(2021, 3, 1)
+    try:
+        for step in case['steps']:
+            hol = [base + DAY * i for i in step['hol']]
+            wk = step.get('weekend')
+            if step['how'] == 'positional':
+                cal = calendar(key, hol) if wk is None else calendar(key, hol, wk)
+            else:
+                cal = calendar(key, holidays=hol) if wk is None else calendar(key, holidays=hol, weekend=wk)
+            got = calendar(key)
+            weekend = set([5, 6] if wk is None else wk)
+            hs = set(hol)
+            ctx.monitors['registry_reflects_last_registration'] += 1
+            isb = lambda t: t.weekday() not in weekend and t not in hs
+            for i in range(-3, 40):
+                t = base + DAY * i
+                if got.is_bday(t) != isb(t):
+                    ctx.fail('registry_reflects_last_registration', 'after registering %r with holidays %s (weekend %s) as step %d, calendar(key).is_bday(%s) = %s' % (key, step['hol'], wk, case['steps'].index(step), t.date(), got.is_bday(t)))
+                    return
+                f = t
+                while not isb(f):
+                    f += DAY
+                if got.adjust(t, 'f') != f:
+                    ctx.fail('registry_reflects_last_registration', 'adjust(%s, f) = %s expected %s after step %d' % (t.date(), got.adjust(t, 'f'), f, case['steps'].index(step)))
+                    return
+                nxt = f + DAY
+                while not isb(nxt):
+                    nxt += DAY
+                if got.add(t, 1, adj='f') != nxt:
+                    ctx.fail('registry_reflects_last_registration', 'add(%s, 1, f) = %s expected %s after step %d' % (t.date(), got.add(t, 1, adj='f'), nxt, case['steps'].index(step)))
+                    return
+        ctx.mark_nontrivial(case)
+        ctx.cls('registry_light')
+    finally:
         _drange.calendars.pop(key, None)
 
 
@@ -260,7 +305,22 @@ def plan(tier, seed, n):
     return [{'n': per} for _ in range(n)]
 
 
+def gen_light(rng):
+    steps = []
+    for i in range(rng.randint(2, 4)):
+        hol = sorted(rng.sample(range(0, 36), rng.choice([0, 0, 1, 3, 8])))
+        steps.append({'hol': hol, 'weekend': rng.choice([None, None, [5, 6], [4, 5], [6], []]), 'how': rng.choice(['positional', 'keyword'])})
+    return {'kind': 'light', 'steps': steps}
+
+
 def run(spec, ctx):
+    for i in range(40 if spec['tier'] == 'quick' else 600):
+        rng = random.Random('C05L/%d/%d/%d' % (spec['seed'], spec['shard'], i))
+        case = gen_light(rng)
+        ctx.case(case)
+        ctx.run_case(case, run_case)
+        if ctx.full():
+            return
     for i in range(spec['n']):
         rng = random.Random('C05/%d/%d/%d' % (spec['seed'], spec['shard'], i))
         case = gen_case(rng, spec['tier'])
